@@ -235,9 +235,12 @@ static int write_id_table(const sqfs_xattr_writer_t *xwr,
 	size_t i = 0;
 	int err;
 
-	locations[i++] = 0;
-
 	for (blk = xwr->kv_block_first; blk != NULL; blk = blk->next) {
+		/* remember the start of every metadata block we put entries in */
+		sqfs_meta_writer_get_position(mw, &block, &offset);
+		if (i == 0 || block != locations[i - 1])
+			locations[i++] = block;
+
 		memset(&id_ent, 0, sizeof(id_ent));
 		id_ent.xattr = htole64(blk->start_ref);
 		id_ent.count = htole32(blk->count);
@@ -246,10 +249,6 @@ static int write_id_table(const sqfs_xattr_writer_t *xwr,
 		err = sqfs_meta_writer_append(mw, &id_ent, sizeof(id_ent));
 		if (err)
 			return err;
-
-		sqfs_meta_writer_get_position(mw, &block, &offset);
-		if (block != locations[i - 1])
-			locations[i++] = block;
 	}
 
 	return sqfs_meta_writer_flush(mw);
